@@ -48,3 +48,6 @@ Definition jr (c : list (string * float) * list (@entry NumF)) : list nat := jud
 (* checker only, on what the implementation returned *)
 Definition j_C04_obs (o : observed) : list nat :=
   [ match obs_result o with Some r => if C04_ok r then 0 else 1 | None => 0 end ].
+
+(* full correspondence of a request: [agree code] *)
+Definition j_agree (c : case) : list nat := [ agree (decide (k_env c) (k_req c)) (k_obs c) ].
